@@ -269,13 +269,14 @@ def gen_sequences(chk, mode, depth, opset, npicks=0, workers=8):
     return inits, plans, res
 
 
-def cda_vectors(chk, algo, maxlen, bufmax, check_invariants, workers=8):
-    cfg = os.path.join(chk.work, "FsCda_%s_%d.cfg" % (algo, maxlen))
+def cda_vectors(chk, algo, maxlen, bufmax, check_invariants, workers=8, alpha='"a", "b", "/"'):
+    tag = "dot" if "." in alpha else "ab"
+    cfg = os.path.join(chk.work, "FsCda_%s_%d_%s.cfg" % (algo, maxlen, tag))
     with open(cfg, "w") as f:
-        f.write('CONSTANTS\n  Alpha = {"a", "b", "/"}\n  MaxLen = %d\n  BufMax = %d\n  Algo = "%s"\nINIT Init\nNEXT Next\n' % (maxlen, bufmax, algo))
+        f.write('CONSTANTS\n  Alpha = {%s}\n  MaxLen = %d\n  BufMax = %d\n  Algo = "%s"\nINIT Init\nNEXT Next\n' % (alpha, maxlen, bufmax, algo))
         f.write("INVARIANTS Emit %s\nCHECK_DEADLOCK FALSE\n" % ("PostCondition NeverPanics Untouched" if check_invariants else ""))
     res = core.run_tlc("FsCda.tla", cfg, workers=workers, timeout=1500, xmx="6g",
-                       metadir=os.path.join(core.WORK, "tlc-meta", "FsCda-%d-%s" % (os.getpid(), algo)))
+                       metadir=os.path.join(core.WORK, "tlc-meta", "FsCda-%d-%s-%s" % (os.getpid(), algo, tag)))
     return res, res.printed("V")
 
 
@@ -493,6 +494,8 @@ def run(tier):
     nsim, depth = (1500, 4) if tier == "quick" else (20000, 6)
     maxlen, bufmax = (5, 4) if tier == "quick" else (7, 6)
     fut_cda = pool.submit(cda_vectors, chk, "fixed", maxlen, bufmax, True, 4)
+    dotlen = 5 if tier == "quick" else 6
+    fut_cda_dot = pool.submit(cda_vectors, chk, "fixed", dotlen, dotlen - 1, True, 2, '"a", ".", "/"')
     fut_rd = pool.submit(core.run_tlc, "FsReadDir.tla", "FsReadDir.cfg", workers=2, timeout=900,
                          metadir=os.path.join(core.WORK, "tlc-meta", "FsReadDir-%d" % os.getpid()))
     fut_enum = pool.submit(gen_sequences, chk, "enum", 1, "all", 0, 4)
@@ -510,6 +513,16 @@ def run(tier):
         res2, vecs = cda_vectors(chk, "fixed", maxlen, bufmax, False)
         core.tlc_must_pass(res2, "FsCda vectors")
         chk.add_tlc(res2)
+    resd, vecsd = fut_cda_dot.result()        # the same with '.' in the alphabet ("./a", "a/./b", "a/.")
+    if resd.ok:
+        chk.add_tlc(resd)
+        vecs = vecs + vecsd
+    else:
+        model_ok = False
+        resd2, vecsd = cda_vectors(chk, "fixed", dotlen, dotlen - 1, False, 4, '"a", ".", "/"')
+        core.tlc_must_pass(resd2, "FsCda vectors (dot alphabet)")
+        chk.add_tlc(resd2)
+        vecs = vecs + vecsd
     plans = [vec_plan(v) for v in vecs]
     runs, inc = run_plans(chk, bindir, [], plans, "cda")
     bad = judge(chk, runs, "cda")
